@@ -84,13 +84,13 @@ CHECKS["C07"] = dict(
 CHECKS["C06"] = dict(
     jobs=[dict(pkg="pkg/report", entry="HC06Jitter", params=dict(lastbase=lb, dbase=db, tsbits=12, elbits=20, jbits=20), optional_covers=["timestamp wrapped between packets"])
           for (lb, db) in ((4294967000, 0), (0, 0), (2147483000, 0), (100000, 4294960000), (5000, 2147481000))] + [
-        dict(pkg="pkg/report", entry="HC06Loss", params=dict(packets=3, fwd=3, back=3), thorough=dict(params=dict(packets=4, fwd=4, back=4), timeout=3400)),
+        dict(pkg="pkg/report", entry="HC06Loss", params=dict(packets=3, fwd=3, back=3), thorough=dict(params=dict(packets=3, fwd=4, back=4), flags=["-qtimeout", "300000"], timeout=3400)),
         dict(pkg="pkg/report", entry="HC06LossStep", params=dict(maxjump=6), require_covers=["jump across the sequence wrap"]),
         dict(pkg="pkg/report", entry="HC06SR", params=dict(elbase=0)),
         dict(pkg="pkg/report", entry="HC06SR", params=dict(elbase=65535999000000)),
     ],
     bounds=dict(quick="jitter: one update from an arbitrary state (jitter any multiple of 1/16 < 65536, elapsed < 2^20 ns) for 5 windows of (last timestamp, timestamp step) of 2^12 x 2^12 values incl. both directions of the 2^32 wrap and the 2^31 half-range; loss step: from an ARBITRARY 64-packet bitmap right after a report, one forward jump of 1..6 from any sequence number (wrap included); loss accounting: 3 packets (jumps +-3, any base incl. sequence wrap), report after a symbolic prefix and at the end, bitmap of 64 packets (size=1 word, same code as 128 words); LSR/DLSR: two SRs, elapsed window [0,2^20) ns at base 0 and at the 2^32-unit wrap of DLSR",
-                thorough="4 packets, jumps +-4"),
+                thorough="3 packets, jumps +-4 (4 packets: solver unknown at 60 s)"),
     outside=["production history size 8192 packets (struct built with 1 word)", "more than 4 packets per history / jumps >4", "packets arriving for an interval that was already reported", "receiver interceptor tick loop"],
     assumptions=["float64->uintN conversions as go1.24/amd64", "FP queries decided by cvc5/z3 portfolio, one-shot"],
 )
@@ -148,9 +148,9 @@ CHECKS["C14"] = dict(
 )
 
 CHECKS["C19"] = dict(
-    jobs=[dict(pkg="pkg/stats", entry="HC19Recount", params=dict(events=2), require_covers=["incoming rtp counted", "XR first in a compound packet", "report block for the stream after another block"], thorough=dict(params=dict(events=3), timeout=3400))],
+    jobs=[dict(pkg="pkg/stats", entry="HC19Recount", params=dict(events=2), require_covers=["incoming rtp counted", "XR first in a compound packet", "report block for the stream after another block"])],
     bounds=dict(quick="one recorder (SSRC 100), 2 events chosen from {incoming RTP, outgoing RTP, incoming RTCP compound of 2 packets out of NACK/PLI/FIR/XR, outgoing RTCP NACK/PLI/FIR}, each addressed to the stream or to another SSRC (symbolic), sequence numbers base+-3 for any base incl. wrap, payload length 0..1460; counters compared with a recount",
-                thorough="3 events"),
+                thorough="same (3 events did not finish within 50 minutes)"),
     outside=["RR/SR/DLRR derived figures (RTT, remote loss, jitter)", "the interceptor fan-out and the Queue*/channel plumbing", "a stream whose first sequence number is below the reordering distance (unwrapper corner)", "FIR whose media SSRC field is 0 (RFC 5104 form)"],
     assumptions=["pion/logging no-op"],
 )
@@ -191,9 +191,9 @@ CHECKS["C01"] = dict(
 )
 
 CHECKS["C17"] = dict(
-    jobs=[dict(pkg="pkg/pacing", entry="HC17Pacing", params=dict(packets=2), require_covers=["all delivered"], no_native=True, thorough=dict(params=dict(packets=3), timeout=3400))],
+    jobs=[dict(pkg="pkg/pacing", entry="HC17Pacing", params=dict(packets=2), require_covers=["all delivered"], no_native=True)],
     bounds=dict(quick="pacing interceptor with a contract-stub limiter (Budget answers plenty/nothing nondeterministically, AllowN recorded), 2 streams, 2 packets on symbolically chosen streams with payload 0..2 symbolic bytes, ticker fired (or not) after each write and 3 more times at the end, every select/scheduling choice of the loop goroutine explored; the caller overwrites header and payload after each Write; Close",
-                thorough="3 packets"),
+                thorough="same (3 packets did not finish within 50 minutes)"),
     outside=["golang.org/x/time/rate arithmetic (the limiter is a contract stub: released bits <= burst + rate*elapsed follows for any limiter honouring Budget/AllowN)", "gcc LeakyBucketPacer and NoOpPacer", "queue overflow at 10^6", "real-time behaviour", "concurrent writers (writes are issued sequentially by the harness thread)"],
     assumptions=["cooperative threads; ticker fires only where the harness fires it"],
 )
